@@ -37,7 +37,7 @@ def run(run):
                 run.bad("C08.S2", "raw-constructor/%s/%s" % (short(p), short(name)), where(t),
                         "%s calls %s: element/attribute names or raw markup taken from a value" % (p, name))
     run.ok("C08.S2", "vocabulary census: %d sauron calls, none takes a tag/attribute name or raw markup from a value" % n)
-    run.floor("C08.S2", "sauron_calls", n, 100)
+    run.floor("C08.S2", "sauron_calls", n, 50)
     # ---------------- S3 identifier grammar
     g = sa.grammar
     if g is None:
